@@ -124,6 +124,7 @@ def ev? (now : Nat) (op : String) (a : List String) : Option Ev :=
   | "lDelete", [id, ok] => do pure (.lDelete (← id.toNat?) (← bool? ok))
   | "lDetach", [id, ok] => do pure (.lDetach (← id.toNat?) (← bool? ok))
   | "lEnd", [] => some .lEnd
+  | "dAccept", [u, ok] => do pure (.dAccept (← u.toNat?) (← bool? ok))
   | _, _ => none
 
 def view (s : PE.St) : String := s!"{recStr s.rcd} | {cloudStr s.cloud}"
